@@ -14,7 +14,7 @@ import socket
 
 from hypothesis import strategies as st
 
-from lib.core import hyp_run
+from lib.core import enumerate_run, hyp_run
 
 META = dict(
     property="C32",
@@ -587,17 +587,51 @@ def pad_to_end(case):
     return c, len(pads)
 
 
+def name_labels(name):
+    """Labels of a name in twisted's dotted-bytes form.  b"" and b"." are the
+    root; exactly one trailing dot only marks the name as fully qualified."""
+    if name in (b"", b"."):
+        return []
+    return (name[:-1] if name.endswith(b".") else name).split(b".")
+
+
 def name_defect(name):
-    labs = name.split(b".")
+    labs = name_labels(name)
     if any(len(l) > 255 for l in labs):
         return "label-over-255"
     if any(len(l) > 63 for l in labs):
         return "label-64-to-255"
     if any(len(l) == 0 for l in labs):
         return "empty-label"
-    if wire_len(name) > 255:
+    if sum(len(l) + 1 for l in labs) + 1 > 255:
         return "name-over-255"
     return None
+
+
+def empty_label_positions(name):
+    labs = name_labels(name)
+    pos = set()
+    for i, l in enumerate(labs):
+        if not l:
+            # a run of empty labels reaching the end is "trailing" (two or more trailing dots)
+            if all(not x for x in labs[i:]):
+                pos.add("trailing")
+            elif all(not x for x in labs[:i + 1]):
+                pos.add("leading")
+            else:
+                pos.add("interior")
+    return sorted(pos)
+
+
+def dot_pattern_names(max_len=6):
+    """Every byte string over {a, .} up to max_len that is NOT representable
+    (has an empty label at the front, inside or at the end)."""
+    import itertools
+    for n in range(1, max_len + 1):
+        for t in itertools.product((b"a", b"."), repeat=n):
+            name = b"".join(t)
+            if name_defect(name) == "empty-label":
+                yield name
 
 
 def run_case(ctx, case):
@@ -620,6 +654,9 @@ def run_case(ctx, case):
         else:
             m.answers.append(dns.RRHeader(b"ok.example", 33, 1, 0, dns.Record_SRV(1, 2, 3, name, ttl=0)))
         ctx.count("badname:" + defect)
+        if defect == "empty-label":
+            for pos in empty_label_positions(name):
+                ctx.count("badname:empty-label:" + pos)
         ctx.nontrivial(("badname", where, name))
         try:
             wire = m.toStr()
@@ -969,8 +1006,17 @@ def badname_case(draw):
             labs = [b"n" * 63] * 3 + [b"n" * draw(st.integers(62, 63))]   # 255 + 0/1: the boundary
             if wire_len(b".".join(labs)) <= 255:
                 labs.append(b"z")
-    else:               # an empty label inside or in front
-        labs = draw(st.sampled_from([[b"a", b"", b"b"], [b"", b"a"], [b"a", b"", b"", b"b"], [b"", b"", b"a"]])) + post
+    else:               # empty labels in front, inside and/or at the end (two or more trailing dots)
+        labs = [l for l in pre + draw(_ok) + post] or [b"a"]
+        for _ in range(draw(st.integers(1, 3))):
+            labs.insert(draw(st.integers(0, len(labs))), b"")
+        name = b".".join(labs)
+        if draw(bit):
+            name += b"."     # one more dot: the only empty label that would be fine is a single final one
+        while name_defect(name) != "empty-label":     # e.g. b"a." (fully qualified) or b"." (the root)
+            name += b"."
+        return dict(kind="badname", name=name,
+                    where=draw(st.sampled_from(["query", "owner", "rdata-NS", "rdata-SRV"])))
     return dict(kind="badname", name=b".".join(labs),
                 where=draw(st.sampled_from(["query", "owner", "rdata-NS", "rdata-SRV"])))
 
@@ -1004,6 +1050,23 @@ def _shard(sub, i):
 
 
 def run(ctx):
+    # complete small scope: every unrepresentable dot pattern up to 6 bytes, in every place a name is encoded
+    enumerate_run(ctx, [dict(kind="badname", name=n, where=w) for n in dot_pattern_names()
+                        for w in ("query", "owner", "rdata-NS", "rdata-SRV")], run_case)
+    # the boundaries themselves, deterministically: 64-byte label, 256-octet name, and a name first
+    # written at offset 0x4000 + d (d = -2..2) that is used again later
+    edge = [dict(kind="badname", name=n, where=w)
+            for n in (b"b" * 64, b"x." + b"b" * 64 + b".y", b".".join([b"n" * 63] * 3 + [b"n" * 62]))
+            for w in ("query", "owner", "rdata-NS", "rdata-SRV")]
+    hdr0 = dict(id=1, answer=1, opCode=0, recDes=0, recAv=0, auth=0, rCode=0, trunc=0, authenticData=0, checkingDisabled=0)
+    for d in (-2, -1, 0, 1, 2):
+        edge.append(dict(kind="msg", hdr=hdr0, limit=["abs", 0], q=[[b"q.example", 1, 1]],
+                         an=[[b"pad.example", 1, 0, "NULL", [b"\xaa", 0]], [b"late.zone", 1, 0, "A", [b"\x7f\x00\x00\x01"]]],
+                         ns=[], ar=[[b"late.zone", 1, 0, "MX", [10, b"mx.late.zone"]]], pad_to=[0, d]))
+    enumerate_run(ctx, edge, run_case)
+    ctx.extra["small_scope"] = "all byte strings over {a, .} up to 6 bytes with an empty label in front, inside or at the end (single trailing dot and the root excluded: representable), as query name, owner, compressed and uncompressed rdata name"
+    if ctx.has_violation():
+        return
     if ctx.thorough:
         ctx.shards(_shard, list(range(16)))
     else:
